@@ -58,7 +58,7 @@ def run(tier, seed):
     inp, out = os.path.join(d, "cases.ndjson"), os.path.join(d, "out.ndjson")
     nv.write_ndjson(inp, [{"args": meta["args"], "setup": meta["setup"]}] + [{"id": i, "body": c["body"], "two": c["two"]} for i, c in enumerate(cases)])
     nv.harness("nv-typing", ["infer-run", "--cases", inp, "--out", out, "--maxargs", str(maxargs)])
-    results = nv.read_ndjson_text(open(out).read())
+    results = nv.read_ndjson_text(open(out, encoding="utf-8").read())
     ncalls = 0
     rejected_calls = 0
     for c, r in zip(cases, results):
